@@ -22,7 +22,7 @@ build() {
     # the wrappers lack must not cost the whole check: build again with the real path types
     # (Path::exists and friends then ask the real tree, as before the wrappers existed).
     cp "$GENSIM/build.log" "$GENSIM/build.first.log"
-    if (cd "$GENSIM" && cargo build --release --offline --quiet --no-default-features 2>"$GENSIM/build.log"); then
+    if (cd "$GENSIM" && cargo build --release --offline --quiet --no-default-features --features likelysubtags 2>"$GENSIM/build.log"); then
       echo "note: the generators do not compile against the simulator's Path/PathBuf wrappers; built with the real path types (see $GENSIM/build.first.log)" >&2
     else
       echo "HARNESS-ERROR: the simulator does not build against /repo's working tree (see $GENSIM/build.log)" >&2
@@ -72,6 +72,8 @@ case "${1:-}" in
         exec "$BIN" replay "$2"
         ;;
       quick|thorough)
+        # replay files of earlier checks describe earlier trees
+        rm -f "$ROOT"/replays/*.json
         tier="${VERIF_TIER:-$1}"
         [ "$1" = thorough ] && tier=thorough
         exec "$BIN" check --tier "$tier" --seed "${VERIF_SEED:-1}" \
